@@ -55,23 +55,26 @@ def verify(pid):
 
 
 def detect(mid, props, tier='quick'):
+    """runs the checks against a scratch worktree of /repo with the patch applied
+    (VERIF_REPO), evidence to a scratch directory; /repo itself is not touched"""
     patch = '%s/seeded/%s/patch.diff' % (V, mid)
-    st = sh('git -C /repo status --porcelain')
-    assert not st.stdout.strip(), '/repo not clean: ' + st.stdout
-    a = sh('git -C /repo apply ' + patch)
+    wt = '/tmp/mut/' + mid
+    sh('git -C /repo worktree remove --force %s; rm -rf %s' % (wt, wt))
+    a = sh('mkdir -p /tmp/mut && git -C /repo worktree add -q --detach %s HEAD && git -C %s apply %s' % (wt, wt, patch))
     assert a.returncode == 0, a.stderr
     out = {}
     try:
         for p in props:
             t0 = time.time()
-            r = sh('cd %s && ./check %s %s' % (V, p, tier))
+            r = sh('cd %s && VERIF_REPO=%s VERIF_EVID=/tmp/mut/ev-%s ./check %s %s' % (V, wt, mid, p, tier))
             viol = [l for l in r.stdout.splitlines() if l.startswith('VIOLATION')]
             first = next((l for l in r.stdout.splitlines() if l.strip().startswith('REPRODUCED')), '')
+            herr = [l for l in r.stdout.splitlines() if l.startswith('HARNESS-ERROR')]
             out[p] = {'exit': r.returncode, 'violations': len(viol), 'first': first.strip()[:300],
-                      'wall': round(time.time() - t0)}
+                      'harness_errors': herr[:2], 'wall': round(time.time() - t0), 'tier': tier}
             print(mid, p, out[p], flush=True)
     finally:
-        sh('git -C /repo checkout -- .')
+        sh('git -C /repo worktree remove --force %s; rm -rf /tmp/mut/ev-%s' % (wt, mid))
     return out
 
 
@@ -84,7 +87,8 @@ if __name__ == '__main__':
         for pid in sys.argv[2:]:
             verify(pid)
     elif cmd == 'detect':
-        r = detect(sys.argv[2], sys.argv[3:])
+        tier = os.environ.get('TIER', 'quick')
+        r = detect(sys.argv[2], sys.argv[3:], tier)
         f = '%s/seeded/%s/detect.json' % (V, sys.argv[2])
         old = json.load(open(f)) if os.path.exists(f) else {}
         old.update(r)
